@@ -153,7 +153,8 @@ def deep_ids(ctx, fxs):
 
 DESCRIPTOR_IDS = [{"__jsonclass__": ["decimal.Decimal", ["7"]]}, {"__jsonclass__": ["fractions.Fraction", [1, 3]]},
                   {"__jsonclass__": ["types.SimpleNamespace", {"a": 1}]}, {"__jsonclass__": ["builtins.set", [[1, 2]]]},
-                  [{"__jsonclass__": ["decimal.Decimal", ["1.5"]]}], {"k": {"__jsonclass__": ["datetime.date", [2020, 1, 2]]}}]
+                  [{"__jsonclass__": ["decimal.Decimal", ["1.5"]]}], {"k": {"__jsonclass__": ["datetime.date", [2020, 1, 2]]}},
+                  {"__jsonclass__": ["builtins.bytes", [[104, 105]]]}, {"__jsonclass__": ["builtins.complex", [1, 2]]}]
 
 
 def descriptor_ids(ctx, fxs):
@@ -162,9 +163,12 @@ def descriptor_ids(ctx, fxs):
     both answers open for THAT entry (its id: the descriptor as sent, or null); what is judged is the one-to-one clause:
     one response object per non-notification entry, in order, the neighbours keeping their own ids."""
     for did in DESCRIPTOR_IDS:
-        for m in ("echo", "fail", "nosuch"):
+        # (valid calls, and entries that fail validation for another reason: they are owed one error each, too)
+        for m in ("echo", "fail", "nosuch", 5, "", None):
             for two in (True, False):
                 e = {"method": m, "params": [1], "id": did}
+                if m is None:
+                    del e["method"]
                 if two:
                     e["jsonrpc"] = "2.0"
                 n1 = {"jsonrpc": "2.0", "method": "echo", "params": [1], "id": 41}
